@@ -192,7 +192,7 @@ def run_case(case):
     if exotic:
         out.label("has_non_js_linebreak")
     r = srv.call({"base": base, "decisions": dec})
-    detail = {"text_has_non_js_linebreak": exotic, "actions": actions}
+    detail = {"text_has_non_js_linebreak": exotic, "actions": actions, "column0_insert_below_inserted_line": col0_insert_below_line_insert(dec)}
     if "merge_exc" in r:
         out.fail("decisions_agree", "typescript_apply_raises", re.sub(r"\d+", "N", r["merge_exc"])[:60], detail=dict(detail, error=r["merge_exc"]))
     elif canon_js(r.get("merged")) != canon_js(py):
@@ -205,6 +205,24 @@ def run_case(case):
     return out
 
 
+def col0_insert_below_line_insert(dec):
+    """Some decision inserts characters at column 0 of line k of a string while another inserts lines before line k of that string."""
+    def adds(d, key):
+        return any(e.get("op") == "addrange" and e.get("key") == key for side in ("local_diff", "remote_diff", "custom_diff") for e in (d.get(side) or []))
+    for d1 in dec:
+        p1 = d1["common_path"]
+        if p1 and isinstance(p1[-1], int) and adds(d1, 0):
+            for d2 in dec:
+                if d2["common_path"] == p1[:-1] and adds(d2, p1[-1]):
+                    return True
+    return False
+
+
+def _col0(case, f):
+    d = f.get("detail") or {}
+    return bool(d.get("column0_insert_below_inserted_line")) and f.get("kind") == "typescript_apply_differs"
+
+
 def _non_js_linebreak(case, f):
     return bool((f.get("detail") or {}).get("text_has_non_js_linebreak"))
 
@@ -214,7 +232,18 @@ def _take_max(case, f):
     return "take_max" in (d.get("actions") or []) and "take_max" in (d.get("error") or "")
 
 
-DISCRIMINATORS = {"text_has_non_js_linebreak": _non_js_linebreak, "action_take_max": _take_max}
+def _proto_key(case, f):
+    def walk(x):
+        if isinstance(x, dict):
+            return "__proto__" in x or any(walk(v) for v in x.values())
+        if isinstance(x, list):
+            return any(walk(v) for v in x)
+        return False
+    return walk(case)
+
+
+DISCRIMINATORS = {"text_has_non_js_linebreak": _non_js_linebreak, "action_take_max": _take_max, "object_key___proto__": _proto_key,
+                  "column0_insert_below_inserted_line": _col0}
 
 
 def finalize(tier, merged):
